@@ -133,6 +133,36 @@ fn check_case<'a>(b: &'a AllBuilder<'a>, c: &Case, params: &[(Vec<(u32, u32)>, W
             }
         }
     }
+    // widening: smoothing the already smoothed diagram again over a larger prefix must give the
+    // diagram smoothed over that prefix (function kept, every path tests levels 0..k2-1 once,
+    // in order; exact counts at the full width)
+    for k2 in (c.k + 1)..=nv {
+        let s2 = match guarded(|| b.smooth(s, k2)) {
+            Ok(x) => x,
+            Err(e) => return Some(("panic".into(), format!("smooth(smooth(f, {}), {}) panicked: {}", c.k, k2, e))),
+        };
+        *evals += 1;
+        if bdd_tt(s2, nv) != t {
+            return Some(("function-changed".into(), format!("smooth(smooth(f, {}), {}) denotes {:#x} instead of {:#x}", c.k, k2, bdd_tt(s2, nv), t)));
+        }
+        for path in bdd_paths(s2) {
+            let lv: Vec<usize> = path.iter().map(|&v| levels[v]).collect();
+            if lv.len() < k2 || (0..k2).any(|i| lv[i] != i) {
+                return Some(("path-misses-level".into(), format!("smooth(smooth(f, {}), {}): a path tests variables at levels {:?}; levels 0..{} must each be tested exactly once, in order", c.k, k2, lv, k2)));
+            }
+        }
+        if k2 == nv {
+            if let Some((w, prm)) = params.iter().nth(1).or(params.first()) {
+                let want = brute(t, nv, w);
+                if let Ok(x) = guarded(|| s2.unsmoothed_wmc(prm)) {
+                    *evals += 1;
+                    if x.0 != want as f64 {
+                        return Some(("count-wrong".into(), format!("count of smooth(smooth(f, {}), {}) under weights {:?} is {} but the sum over models is {}", c.k, k2, w, x.0, want)));
+                    }
+                }
+            }
+        }
+    }
     if c.k == nv {
         for (w, prm) in params.iter() {
             let want = brute(t, nv, w);
